@@ -71,16 +71,13 @@ Definition state_spec_ok (bl : list blobrow) (msgs : list (list partrow)) : bool
                                     end
                        end) rows.
 
-Definition fcode (f : option finding) : nat :=
-  match f with None => 0 | Some EmptyPartS3Blob => 1 end.
-
 (** the executable spec of one read (Spec/BlobSpec.v spec_read_ok, restated
     here so that this file has no dependency on Spec) *)
 Definition obs_ok (own : str) (failed : bool) (res : option str) : bool :=
   match res with Some s => str_eqb s own | None => failed end.
 
 (** one BODY[n] read; [impl] = [None] when FETCH answered NO.
-    code = (impl or its GETs <> model) + 2 * (impl violates the spec) + 4 * class *)
+    code = (impl or its GETs <> model) + 2 * (impl violates the spec); no finding class is left *)
 Definition read_code (w : world) (s3on : bool) (m k : nat) (o : oracle) (impl : option str) (gets : list req) : nat :=
   match nth_error (w_msgs w) m with
   | Some rows =>
@@ -89,7 +86,6 @@ Definition read_code (w : world) (s3on : bool) (m k : nat) (o : oracle) (impl : 
           let out := fst (fst (read_part s3on w row o)) in
           (if optstr_eqb impl out && list_eqb req_eqb (snd (read_part s3on w row o)) gets then 0 else 1)
           + (if obs_ok (r_own row) (read_failed s3on w row o) impl then 0 else 2)
-          + 4 * fcode (classify cokey w row)
       | None => 99
       end
   | None => 99
@@ -118,12 +114,7 @@ Definition read_all_ok (w : world) (s3on : bool) (m : nat) (o : oracle) (multi :
                   end) && list_eqb req_eqb lg gets
   | None => false
   end.
-(** is some row of the message inside a finding class? *)
-Definition msg_class (w : world) (m : nat) : bool :=
-  match nth_error (w_msgs w) m with
-  | Some rows => existsb (fun r => match classify cokey w r with Some _ => true | None => false end) rows
-  | None => false
-  end.
+Definition msg_class (w : world) (m : nat) : bool := false.
 (** spec on a whole-message read that answered NO: some row's backend must have failed *)
 Fixpoint rows_failed (w : world) (s3on : bool) (rows : list partrow) (o : oracle) : bool :=
   match rows with
